@@ -82,16 +82,25 @@ async def scenario(sc):
                         # later and runs earlier; used only to mark when teardown began
                         pass
             # mark finish times through the task's own context teardown
-            for i, info in tasks.items():
-                def fin(info=info):
+            def mk_fin(i, info):
+                # a task that cleans up slowly also has a slow (asynchronous) teardown callback in its own context: the owner's
+                # finaliser must wait for that teardown too, not just for the task function to return
+                if sc["items"][i][2] == "slow_cleanup":
+                    async def afin():
+                        with anyio.CancelScope(shield=True):      # the task may have been cancelled: its teardown still takes time
+                            await anyio.sleep(0.01)
+                        info["finished"] = True
+                    return afin
+
+                def fin():
                     info["finished"] = True
-                info["own_ctx"].add_teardown_callback(fin) if "own_ctx" in info else None
+                return fin
+            for i, info in tasks.items():
+                info["own_ctx"].add_teardown_callback(mk_fin(i, info)) if "own_ctx" in info else None
             await anyio.sleep(0)
             for i, info in tasks.items():
                 if "own_ctx" in info:
-                    def fin(info=info):
-                        info["finished"] = True
-                    info["own_ctx"].add_teardown_callback(fin)
+                    info["own_ctx"].add_teardown_callback(mk_fin(i, info))
         return ctx
 
     try:
